@@ -1,12 +1,23 @@
 #!/bin/sh
-# usage: tools/try_mutant.sh <patch.diff> <property id> [tier]  — applies the patch to /repo, runs the check, reverts.
-PATCH="$1"; ID="$2"; TIER="${3:-quick}"
-cd /repo || exit 2
-if ! git diff --quiet; then echo "/repo has uncommitted changes; refusing"; exit 2; fi
-git apply "$PATCH" || { echo "patch does not apply"; exit 3; }
-cd /verif && VERIF_NO_EVIDENCE=1 ./check.sh "$ID" "$TIER" > /tmp/mutant_out.$$ 2>&1; RC=$?
-git -C /repo checkout -- .
-grep -E "VIOLATION|KNOWN-FINDING|INCONCLUSIVE|PASS|BROKEN|label=" /tmp/mutant_out.$$ | head -20
+# usage: tools/try_mutant.sh <patch.diff> <property id> [tier]
+# Applies the patch to /repo (git apply), runs the check, reverts (git checkout -- .).
+# With TRY_IN_WORKTREE=1 the patch is applied to a throw-away worktree of /repo's HEAD
+# instead and the engine is pointed at it (VERIF_REPO), so /repo stays untouched.
+PATCH="$(readlink -f "$1")"; ID="$2"; TIER="${3:-quick}"
+if [ -n "$TRY_IN_WORKTREE" ]; then
+  WT=/tmp/wt_try_$$
+  git -C /repo worktree add -q --detach "$WT" HEAD || exit 2
+  (cd "$WT" && git apply "$PATCH") || { echo "patch does not apply"; git -C /repo worktree remove --force "$WT"; exit 3; }
+  cd /verif && VERIF_REPO="$WT" VERIF_NO_EVIDENCE=1 ./check.sh "$ID" "$TIER" > /tmp/mutant_out.$$ 2>&1; RC=$?
+  git -C /repo worktree remove --force "$WT"
+else
+  cd /repo || exit 2
+  if ! git diff --quiet; then echo "/repo has uncommitted changes; refusing"; exit 2; fi
+  git apply "$PATCH" || { echo "patch does not apply"; exit 3; }
+  cd /verif && VERIF_NO_EVIDENCE=1 ./check.sh "$ID" "$TIER" > /tmp/mutant_out.$$ 2>&1; RC=$?
+  git -C /repo checkout -- .
+fi
+grep -a -E "VIOLATION|KNOWN-FINDING|INCONCLUSIVE|PASS|BROKEN|label=" /tmp/mutant_out.$$ | cut -c1-220 | head -20
 rm -f /tmp/mutant_out.$$
 echo "exit=$RC"
 exit $RC
